@@ -81,6 +81,10 @@ def proof_step(pid, thorough=False, timeout=3000):
         res["problems"].append("no property file %s" % src)
         return res
     vo = os.path.join(COQDIR, rel)
+    text = strip_comments(open(src).read())
+    thms = re.findall(r"^\s*(?:Theorem|Corollary)\s+(\w+)", text, re.M)
+    res["theorems"] = thms
+    res["obligations"] = len(thms)
     if thorough:
         subprocess.run(["make", "clean"], cwd=COQDIR, capture_output=True)
     for ext in (".vo", ".vok", ".vos", ".glob"):
@@ -94,11 +98,7 @@ def proof_step(pid, thorough=False, timeout=3000):
         res["ok"] = False
         res["problems"].append("proof build failed: " + (p.stderr[-1500:] or p.stdout[-1500:]))
         return res
-    text = strip_comments(open(src).read())
-    thms = re.findall(r"^\s*(?:Theorem|Corollary)\s+(\w+)", text, re.M)
     printed = re.findall(r"Print\s+Assumptions\s+(\w+)\s*\.", text)
-    res["theorems"] = thms
-    res["obligations"] = len(thms)
     for t in thms:
         if t not in printed:
             res["ok"] = False
